@@ -58,6 +58,7 @@ pub proof fn lemma_absorb_blocks_prefix(h: Seq<u64>, d1: Seq<u8>, d2: Seq<u8>, n
         absorb_blocks(h, d1, n) == absorb_blocks(h, d2, n),
     decreases n,
 {
+    hide(compress_rfc);
     if n > 0 {
         let m = (n - 1) as nat;
         lemma_absorb_blocks_prefix(h, d1, d2, m);
@@ -75,6 +76,7 @@ pub proof fn lemma_absorb_from_blocks(h: Seq<u64>, data: Seq<u8>, n: nat, d: Seq
         absorb_from(absorb_blocks(h, data, n), 128 * n, d, k) == absorb_blocks(h, data, n + k),
     decreases k,
 {
+    hide(compress_rfc);
     if k > 0 {
         let j = (k - 1) as nat;
         lemma_absorb_from_blocks(h, data, n, d, j);
@@ -102,6 +104,7 @@ pub proof fn lemma_rep_append_small(h: Seq<u64>, tv: nat, buf: Seq<u8>, hinit: S
     ensures
         state_rep(h, tv, buf + input, hinit, data + input),
 {
+    hide(compress_rfc);
     let n = blocks_before_last(data.len());
     let d2 = data + input;
     if input.len() == 0 {
@@ -249,6 +252,7 @@ pub proof fn lemma_rep_append_big(
             data + input,
         ),
 {
+    hide(compress_rfc);
     let n = blocks_before_last(data.len());
     let d2 = data + input;
     let c1: nat = if buf.len() > 0 { 1 } else { 0 };
